@@ -370,7 +370,7 @@ pub mod elements {
             word256_ix: *mut c_size_t,
             extra_var_start: *mut c_size_t,
             extra_var_len: c_size_t,
-        ) -> SimplicityErr;
+        ) -> c_size_t;
     }
 }
 
@@ -554,7 +554,7 @@ pub mod type_inference {
         *mut c_size_t,
         *mut c_size_t,
         c_size_t,
-    ) -> SimplicityErr;
+    ) -> c_size_t;
 
     extern "C" {
         /// If the Simplicity DAG, 'dag', has a principal type (including constraints
